@@ -11,6 +11,11 @@ from .llparse import *
 
 WELL_KNOWN_GLOBALS = ['@_ZTISt11logic_error', '@_ZTISt9exception', '@_ZTISt13runtime_error',
                       '@_ZTVN10__cxxabiv120__si_class_type_infoE']
+# vtables of libstdc++ exception classes whose constructors are modelled in rt.c: [D1, D0, what]
+EXTERNAL_VTABLES = {
+    '@_ZTVSt11logic_error': ['@_ZNSt11logic_errorD1Ev', '@_ZNSt11logic_errorD0Ev', '@_ZNKSt11logic_error4whatEv'],
+    '@_ZTVSt9exception': ['@_ZNSt9exceptionD1Ev', '@_ZNSt9exceptionD0Ev', '@_ZNKSt9exception4whatEv'],
+}
 
 
 class Emitter:
@@ -704,6 +709,15 @@ class Emitter:
                                 if isinstance(x, tuple):
                                     for y in x:
                                         if isinstance(y, V): scan_val(y)
+        i8p = PtrTy(IntTy(8))
+        for vt, fns in EXTERNAL_VTABLES.items():
+            for j, fn in enumerate(fns):
+                if fn not in M.funcs and fn not in M.decls:
+                    M.decls[fn] = FnTy(i8p if j == 2 else VoidTy(), [i8p], False)
+                    M.nounwind.add(fn)
+                self.vt_slots.setdefault(j, [])
+                if fn not in self.vt_slots[j]: self.vt_slots[j].append(fn)
+                taken[fn] = True
         self.addr_taken = list(taken)
 
     # ---------------- globals
@@ -730,8 +744,16 @@ class Emitter:
         fn_code = []
         glob_defs = []
         for wk in WELL_KNOWN_GLOBALS:
-            if wk in M.globals: self.need_glob(wk)
-            else: glob_defs.append('P g_%s[8]; /* well-known external %s */' % (cid(wk), wk))
+            if wk in M.globals and M.globals[wk][1] is not None: self.need_glob(wk)
+            else:
+                glob_defs.append('P g_%s[8]; /* well-known external %s */' % (cid(wk), wk)); self.glob_need[wk] = True
+        if not hasattr(self, 'addr_taken'):
+            self.scan_addr_taken()
+        for vt, fns in EXTERNAL_VTABLES.items():
+            for fn in fns: self.use_ext(fn)
+            ti = '@_ZTI' + vt[5:]
+            glob_defs.append('P g_%s[8] = {0, (P)&g_%s, %s}; /* modelled external vtable */' % (cid(vt), cid(ti), ', '.join('(P)&x_%s' % cid(f) for f in fns)))
+            self.glob_need[vt] = True
         while self.fn_queue or self.glob_queue:
             while self.fn_queue:
                 n = self.fn_queue.pop(0)
